@@ -20,6 +20,15 @@ Definition escape_ch (c : ascii) : str :=
   else [c].
 Definition html_escape (x : str) : str := flat_map escape_ch x.
 
+(* the text-level escape used where source text is put next to links (ford/sourceform.py _esc):
+   & < > only; enough for element content, not for attribute values *)
+Definition escape_text_ch (c : ascii) : str :=
+  if ch_eqb c c_amp then s "&amp;"
+  else if ch_eqb c c_lt then s "&lt;"
+  else if ch_eqb c c_gt then s "&gt;"
+  else [c].
+Definition escape_text (x : str) : str := flat_map escape_text_ch x.
+
 (* decoding of the five entities; [skip] = characters of an entity still to be dropped *)
 Definition entity_at (x : str) : option (ascii * nat) :=
   if starts_with (s "amp;") x then Some (c_amp, 4)
@@ -138,22 +147,21 @@ Definition reads_source_text (st : site) : bool :=
 Definition classified (st : site) : bool :=
   match site_class st with FUnknown => false | _ => true end.
 
-(* escaped on output: the `e` / `escape` filter is applied, or the environment escapes by itself *)
+(* escaped on output: the `e` / `escape` filter is applied, or the environment escapes by itself, or --
+   in element content -- the printed property escapes & < > in the source text it is built from *)
+Definition in_text (st : site) : bool :=
+  match st_context st with InText => true | InAttribute => false end.
 Definition escaped (st : site) : bool :=
   str_in (s "e") (st_filters st) || str_in (s "escape") (st_filters st) || str_in (s "forceescape") (st_filters st)
-  || (autoescape && negb (str_in (s "safe") (st_filters st))).
+  || (autoescape && negb (str_in (s "safe") (st_filters st)))
+  || (in_text st && str_in (st_field st) text_escaped_at_source).
 
-(* sites that print a FreeText field without escaping but whose value FORD has already forced to be a
-   number: the value of an enumerator (int() of the text, else the file is rejected) *)
-Definition inert_by_construction : list str := [s "macros.html:var.initial#1"].
+(* sites that print a FreeText field without escaping but whose value FORD has already forced to be
+   harmless; none at present (the enumerator value, a number, is escaped like the others) *)
+Definition inert_by_construction : list str := [].
 
-(* known findings: declaration text printed unescaped (keys of Gen/EscapeSites.v) *)
-Definition known_unescaped : list str :=
-  [s "macros.html:var.full_type | relurl(page_url)#1";
-   s "macros.html:proc.retvar.full_declaration | relurl(page_url)#1";
-   s "macros.html:proc.retvar.full_declaration | relurl(page_url)#2";
-   s "macros.html:variable.full_type | relurl(page_url)#1";
-   s "proc_page.html:procedure.retvar.full_declaration | relurl(page_url)#1"].
+(* known findings: declaration text printed unescaped (keys of Gen/EscapeSites.v); none at present *)
+Definition known_unescaped : list str := [].
 
 Definition site_ok (st : site) : bool :=
   negb (reads_source_text st) || escaped st.
